@@ -1,6 +1,7 @@
 (* C16 -- generator outputs: prompt, in the promised order, safe to abandon (model M1). *)
-From Coq Require Import List Arith.
-Require Import JV.Model.ParallelCore JV.Proofs.ParallelInv1 JV.Proofs.ParallelInv4 JV.Proofs.ParallelMisc.
+From Coq Require Import List Arith Sorting.Permutation.
+Require Import JV.Model.ParallelCore JV.Proofs.ParallelInv1 JV.Proofs.ParallelInv4 JV.Proofs.ParallelMisc
+               JV.Proofs.ParallelUnordered.
 Import ListNotations.
 
 (* calling the object again during an unfinished run raises RuntimeError and changes nothing *)
@@ -29,3 +30,16 @@ Theorem C16_close_aborts : forall s, phase s = Retrieving ->
   let s' := fst (step true s EClose) in
   aborting s' = true /\ running s' = false /\ phase s' = Finished /\ jobs s' = [].
 Proof. intros s H. unfold step. cbn [step_raw]. rewrite H. cbn. rewrite Bool.orb_true_r. auto. Qed.
+
+(* generator_unordered: when the call ends normally every result has been delivered exactly once
+   (a permutation of the sequential results), whatever the completion order and the schedule *)
+Theorem C16_unordered_exactly_once : forall s, reach s -> mode (c s) = Unordered -> ifail s = None ->
+  phase s = Finished -> exception s = false -> abandoned s = false ->
+  Permutation (delivered s) (seq 0 (N s)) /\ NoDup (delivered s).
+Proof. exact unordered_output_complete. Qed.
+
+(* ... and at every moment before that nothing was delivered twice and nothing that was not taken *)
+Theorem C16_unordered_sound : forall s, reach s -> mode (c s) = Unordered -> ifail s = None ->
+  exception s = false -> abandoned s = false ->
+  NoDup (delivered s) /\ incl (delivered s) (seq 0 (taken s)).
+Proof. exact unordered_output_sound. Qed.
